@@ -4985,11 +4985,25 @@ def _r_no_id_keys(ctx, rule):
                     (isinstance(x, ast.Call) and isinstance(x.func, ast.Attribute) and x.func.attr in ('format', 'debug', 'info', 'warning', 'error', 'exception')) or \
                     (isinstance(x, ast.Call) and isinstance(x.func, ast.Name) and x.func.id in ('print', 'repr', 'str', 'hex')):
                 fmt |= {id(y) for y in ast.walk(x)}
+        # an address is a sound key only while the object is alive: a table that lives no longer than the call (a local) is fine, one that outlives it is not
+        m_ = repo.mod_of(fn)
+        outliving = {n_.id for n_ in walk_no_nested(fn) if isinstance(n_, ast.Name) and n_.id in m_.assigns and
+                     not any(isinstance(y, ast.Name) and y.id == n_.id and isinstance(y.ctx, ast.Store) for y in walk_no_nested(fn))}
+        outliving = {n_ for n_ in outliving if any(isinstance(v, (ast.Dict, ast.Set, ast.List, ast.DictComp)) or
+                                                    (isinstance(v, ast.Call) and (dotted(v.func) or '').split('.')[-1] in ('dict', 'set', 'list', 'defaultdict', 'OrderedDict', 'WeakValueDictionary'))
+                                                    for v in m_.assigns[n_])}
+        uses_self = any(isinstance(y, ast.Attribute) and isinstance(y.value, ast.Name) and y.value.id in ('self', 'cls') for y in walk_no_nested(fn))
+        memo = any((dotted(z) or '').split('.')[-1] in ('lru_cache', 'cache') for d_ in fn.decorator_list for z in ast.walk(d_) if isinstance(z, (ast.Name, ast.Attribute)))
+        returns_it = any(isinstance(r_, ast.Return) and r_.value is not None and any(isinstance(y, ast.Call) and isinstance(y.func, ast.Name) and y.func.id == 'id' for y in ast.walk(r_.value))
+                         for r_ in walk_no_nested(fn))
+        if not (outliving or uses_self or memo or returns_it):
+            continue
         for x in walk_no_nested(fn):
             if isinstance(x, ast.Call) and isinstance(x.func, ast.Name) and x.func.id == 'id' and len(x.args) == 1 and id(x) not in fmt:
                 ctx.inst(rule, fid, repo.norm(x)[:60], False,
-                         'id() of a value is used as data (a cache key, a set member): an address identifies an object only while it is alive -- once the object is freed the '
-                         'next object at the same address inherits its cache entry, so a result computed for one input is returned for another', x)
+                         'id() of a value is used as data (a cache key, a set member) next to a table that outlives the call (%s): an address identifies an object only while it is alive -- once the object is freed the '
+                         'next object at the same address inherits its cache entry, so a result computed for one input is returned for another' %
+                         (', '.join(sorted(outliving)) or ('an attribute of self' if uses_self else 'the memoising decorator' if memo else 'the returned key')), x)
     ctx.inst(rule, 'nbdime', 'id() as data', True, '%d function(s) scanned, object addresses are not used as keys' % n_fn, None, nontrivial=True)
 
 
@@ -5095,3 +5109,114 @@ def r10_14(ctx, rule):
 @extra('C14', 'R14.22', 'star_path, tabulated (as R10.14): the form the differ / ignore tables are keyed by', 10)
 def r14_22(ctx, rule):
     _r_star_path_table(ctx, rule)
+
+
+@extra('C15', 'R15.15', 'the stringified object patch writes keys as JSON: _makeKeyString escapes the key (JSON.stringify) -- a key containing a quote, a backslash or a control character '
+       'otherwise yields text that is not the JSON of the patched object (what the diff view shows as remote, what the merge tool parses back and saves as metadata)', 1)
+def r15_15(ctx, rule):
+    from ..tsscan import TsFile
+    repo = ctx.repo
+    rel = 'packages/nbdime/src/patch/stringified.ts'
+    f = TsFile(repo, rel)
+    body = f.function_body('_makeKeyString')
+    esc = any(t.kind == 'id' and t.text == 'stringify' and i >= 2 and body[i - 1].text == '.' and body[i - 2].text == 'JSON' for i, t in enumerate(body))
+    uses_key = any(t.kind == 'id' and t.text == 'key' for t in body)
+    if not uses_key:
+        raise AnalysisError('_makeKeyString: parameter `key` not found')
+    ctx.inst(rule, rel + ':_makeKeyString', 'key -> text', esc, 'the key is written with JSON.stringify' if esc else
+             'the key is concatenated between two quote characters unescaped: for the key `C:\\data` or `say "hi"` the remote text is not valid JSON (JSON.parse throws, the metadata '
+             'cannot be saved) or names a different key (backslash-t becomes a tab); Python\'s patch + json.dumps escapes', None)
+
+
+@extra('C15', 'R15.16', 'the object-patch iterator ends when the keys are exhausted, not when a key is falsy: PatchObjectHelper.next() compares the shifted key with undefined -- the empty '
+       'string is a valid JSON key, sorts first, and `if (!key)` ends the iteration before any entry is written', 1)
+def r15_16(ctx, rule):
+    from ..tsscan import TsFile
+    repo = ctx.repo
+    rel = 'packages/nbdime/src/patch/common.ts'
+    f = TsFile(repo, rel)
+    toks = f.toks
+    at = [i for i, t in enumerate(toks) if t.kind == 'id' and t.text == 'shift' and i >= 1 and toks[i - 1].text == '.' and i + 2 < len(toks) and toks[i + 1].text == '(']
+    if not at:
+        raise AnalysisError('patch/common.ts: the shift() of the remaining keys was not found')
+    i = at[0]
+    # the variable the shifted key is bound to
+    j = i
+    while j > 0 and toks[j].text != '=':
+        j -= 1
+    var = toks[j - 1].text if j > 0 and toks[j - 1].kind == 'id' else None
+    if var is None:
+        raise AnalysisError('patch/common.ts: the shifted key is not bound to a variable')
+    # first `if (` after the shift
+    k = i
+    while k < len(toks) and not (toks[k].kind == 'id' and toks[k].text == 'if'):
+        k += 1
+    if k >= len(toks) or toks[k + 1].text != '(':
+        raise AnalysisError('patch/common.ts: no test follows the shift')
+    depth, m_ = 0, k + 1
+    cond = []
+    while m_ < len(toks):
+        if toks[m_].text == '(':
+            depth += 1
+        elif toks[m_].text == ')':
+            depth -= 1
+            if depth == 0:
+                break
+        if depth >= 1 and m_ > k + 1:
+            cond.append(toks[m_].text)
+        m_ += 1
+    txt = ' '.join(cond)
+    if var not in cond:
+        raise AnalysisError('patch/common.ts: the test after the shift (%s) does not look at the key' % txt)
+    truthy = cond in ([var], ['!', var]) or txt in ('! %s' % var, var)
+    exact = 'undefined' in cond or 'length' in cond
+    if not truthy and not exact:
+        raise AnalysisError('patch/common.ts: end-of-keys test `%s` not recognised' % txt)
+    ctx.inst(rule, rel + ':PatchObjectHelper.next', 'end-of-keys test', not truthy, 'compares with undefined' if not truthy else
+             '`if (%s)` treats the key "" as the end of the keys: patchStringified of an object that has an empty-string key writes NO entry at all (remote text `{}`), Python '
+             'patches it like any other key' % txt, None, extra={'line': toks[k].line})
+
+
+@extra('C15', 'R15.17', 'character positions inside a line mean the same on both sides: Python counts CODE POINTS (str indexing), JavaScript strings index UTF-16 code units, so the '
+       'TypeScript string patch must convert (codePointAt / Array.from / a code-point iteration) before it adds a character key to a unit offset or slices the base', 1)
+def r15_17(ctx, rule):
+    from ..tsscan import TsFile
+    repo = ctx.repo
+    TS = 'packages/nbdime/src/'
+    conv = []
+    seen = 0
+    for rel, fnname in (('diff/util.ts', 'flattenStringDiff'), ('patch/stringified.ts', 'patchString')):
+        f = TsFile(repo, TS + rel)
+        body = f.function_body(fnname)
+        seen += 1
+        for i, t in enumerate(body):
+            if t.kind == 'id' and t.text in ('codePointAt', 'fromCodePoint'):
+                conv.append((rel, t.line))
+            if t.kind == 'id' and t.text == 'from' and i >= 2 and body[i - 1].text == '.' and body[i - 2].text == 'Array':
+                conv.append((rel, t.line))
+            if t.kind == 'id' and 'codepoint' in t.text.lower():
+                conv.append((rel, t.line))
+    ok = bool(conv)
+    ctx.inst(rule, TS + 'diff/util.ts:flattenStringDiff + patch/stringified.ts:patchString', 'unit of character keys', ok,
+             'code points are converted at %s' % (conv[:2],) if ok else
+             'neither function converts between code points and UTF-16 units: for a line that contains an astral character (an emoji) BEFORE an in-line edit, every character op of the '
+             'server lands one unit early per such character in the browser', None)
+
+
+@extra('C15', 'R15.18', 'both sides canonicalise the diffs they collect for one path before patching: Python\'s apply_decisions runs combine_patches over them (two decisions that each '
+       'carry `patch key K` become one); the TypeScript applyDecisions needs the same step, or patchObject meets key K twice', 1)
+def r15_18(ctx, rule):
+    from ..tsscan import TsFile
+    repo, cg = ctx.repo, ctx.cg
+    pfn = repo.func('nbdime.merging.decisions:apply_decisions')
+    py = [c for c in calls_in(pfn, nested=False) if (dotted(c.func) or '').split('.')[-1] == 'combine_patches']
+    rel = 'packages/nbdime/src/merge/decisions.ts'
+    body = TsFile(repo, rel).function_body('applyDecisions')
+    ts = [t for i, t in enumerate(body) if t.kind == 'id' and 'combine' in t.text.lower() and i + 1 < len(body) and body[i + 1].text == '(']
+    if not py:
+        ctx.inst(rule, 'apply_decisions / applyDecisions', 'collected diffs of one path', True, 'neither side combines: nothing to mirror', None, nontrivial=False)
+        return
+    ok = bool(ts)
+    ctx.inst(rule, 'apply_decisions / applyDecisions', 'collected diffs of one path', ok, 'both sides combine patches on the same key' if ok else
+             'Python combines (%s), TypeScript concatenates: two same-path decisions that both patch key K (what resolve_strategy_record_conflicts produces for /metadata under '
+             'the inline strategy) make patchObject throw "Missing key" / patchSequence duplicate the item in the browser' % repo.norm(py[0])[:50], None)
